@@ -265,12 +265,15 @@ static int check_len_or_resize(assemblyline_t al, int buf_pos) {
     FAIL_IF_VAR(al->external, "exceeded memory buffer: al->buffer_len = %d\n",
                 al->buffer_len)
 #ifdef __linux__
-    // resize internal memory buffer
-    void *resize = mremap(al->buffer, al->buffer_len,
-                          al->buffer_len + MEM_BUFFER, MREMAP_MAYMOVE);
+    // resize internal memory buffer; asm_set_offset() may have moved the
+    // position more than one step beyond the current length
+    int new_len = al->buffer_len + MEM_BUFFER;
+    if (buf_pos + BUFFER_TOLERANCE > new_len)
+      new_len = buf_pos + BUFFER_TOLERANCE;
+    void *resize = mremap(al->buffer, al->buffer_len, new_len, MREMAP_MAYMOVE);
     // NOLINTNEXTLINE(performance-no-int-to-ptr)
     FAIL_SYS(resize == MAP_FAILED, "failed to resize buffer\n", EXIT_FAILURE)
-    al->buffer_len += MEM_BUFFER;
+    al->buffer_len = new_len;
     al->buffer = (uint8_t *)resize;
 #else
     fprintf(stderr, "internal buffer too small. Not running on Linux, "
